@@ -21,6 +21,11 @@ Strata
          a read that fills the buffer and ends with the end-of-data line must not be followed by another read.
          With / without trailer, pre-buffering, with / without max_size; same oracles.
 
+  plain  messages with a long stretch (2-8 KiB) of lines without leading periods next to a period-leading line /
+         the end-of-data line: a read boundary directly behind the leading period(s) of every period-leading wire
+         line (".", "..", before the period), then the rest in pieces of 1024, 1500, R bytes and whole; with a long
+         plain trailer as well (the bytes behind the end-of-data line are then a big period-free read).
+
 The sender is executed through both of its emission paths (DataSender.send(io) + flush, the one
 the client uses, and iteration); the reader product is run once per DISTINCT wire of a message:
 the reader sees nothing of the sender but the wire, so re-running it for another part split that
@@ -59,7 +64,8 @@ RULE = ('case = one message x; every split of x into sender parts at line bounda
         'which the limit is crossed) x pre-buffering. x is enumerated exhaustively over {".",CR,LF,"a"} up to the '
         'tier bound, over token sequences {".","a",CRLF} longer than the bound, a designed dot+whitespace family, '
         'then seeded 8-bit random; 36 messages whose wire is k*R-1, k*R, k*R+1 bytes (R = observed read size, '
-        'k = 1, 2) fed as full-size reads. non-trivial & distinct = distinct x that has a dot-leading line, a bare CR/LF, '
+        'k = 1, 2) fed as full-size reads; 24 messages with 2-8 KiB period-free stretches cut behind the leading '
+        'period(s) of each period-leading wire line, the rest in 1024 / 1500 / R-byte pieces or whole. non-trivial & distinct = distinct x that has a dot-leading line, a bare CR/LF, '
         'no final CRLF or is empty')
 ASSUMPTIONS = ['ScriptSocket hands out exactly the scripted segments (recv(n) never returns more than n)',
                'sender parts are split only at line boundaries, as the property states',
@@ -69,7 +75,8 @@ ASSUMPTIONS = ['ScriptSocket hands out exactly the scripted segments (recv(n) ne
                'below that the check does not say which messages are too big, only that the answer is the same '
                'for every segmentation']
 REQUIRED_HITS = ['reader-returned', 'leftover-compared', 'sender-send-path', 'full/read-of-exactly-read-size-ends-with-eod',
-                 'full/too-big-read-of-exactly-read-size-ends-with-eod', 'size/leftover-compared-after-too-big',
+                 'full/too-big-read-of-exactly-read-size-ends-with-eod', 'plain/big-period-free-read-completes-period-line',
+                 'plain/big-period-free-read-completes-eod-line', 'size/leftover-compared-after-too-big',
                  'size/leftover-compared-after-data', 'size/same-result-kind-judged']
 SHARDS = {'quick': 16, 'thorough': 16}
 BUDGET = {'quick': 70, 'thorough': 900}
@@ -125,6 +132,12 @@ def gen_cases(tier, seed, shard, nshards):
             for variant in ('plain', 'dots', 'no-final-crlf', 'bare-lf', 'one-long-line', 'dot-last-line'):
                 if n % nshards == shard:
                     yield {'x': b'', 'kind': 'full', 'k': k, 'delta': delta, 'variant': variant, 'rs': 77 + n}
+                n += 1
+    for shape in ('dot-first', 'dot-mid', 'lone-dot-first', 'dot-last'):
+        for S in (2048, 5000, 8192):
+            for longline in (False, True):
+                if n % nshards == shard:
+                    yield {'x': b'', 'kind': 'plainrun', 'shape': shape, 'S': S, 'longline': longline, 'rs': 99 + n}
                 n += 1
     for L in range(1, TOKBOUND[tier] + 1):
         for tup in itertools.product(TOKENS, repeat=L):
@@ -396,9 +409,84 @@ def full_read_stratum(case, R):
                                      'leftover': left, 'a_read_of_exactly_read_size_ends_with_eod': (n, rsz) in ends})
 
 
+def plain_run_stratum(case, R):
+    rsz = read_size()
+    S = case['S']
+    plain = (b'P' * (S - 2) + b'\r\n') if case['longline'] else (b'a' * 62 + b'\r\n') * (S // 64)
+    x = {'dot-first': b'.head\r\n' + plain,
+         'dot-mid': b'intro line\r\n' * 12 + b'.mid\r\n' + plain,
+         'lone-dot-first': b'.\r\n' + plain,
+         'dot-last': plain + b'.tail\r\n'}[case['shape']]
+    R.nontrivial(('plainrun', case['shape'], S, case['longline']))
+    R.eval()
+    wire = emit_send([x])
+    R.hit('sender-send-path')
+    n = len(wire)
+    # offsets of the first period of every period-leading wire line (the last one is the end-of-data line)
+    dots = [0] if wire.startswith(b'.') else []
+    at = wire.find(b'\n.')
+    while at != -1:
+        dots.append(at + 1)
+        at = wire.find(b'\n.', at + 1)
+    long_trailer = b''.join(b'NOOP %04d %s\r\n' % (i, b't' * 50) for i in range(32))
+    for t in (b'', b'QUIT\r\n', long_trailer):
+        data = wire + t
+        for p in dots:
+            is_eod = p == n - 3
+            heads = [[p], [p + 1], [p + 2], [p, p + 1], [p + 1, p + 2], [p, p + 1, p + 2]]
+            for head in heads:
+                head = [c for c in head if 0 < c < len(data)]
+                if not head:
+                    continue
+                for piece in (1024, 1500, rsz, None):
+                    cuts = head + (list(range(head[-1] + piece, len(data), piece)) if piece else [])
+                    segs = cut(data, cuts)
+                    for pre in (False, True):
+                        for m in (None, n, 100):
+                            R.eval()
+                            kind, out, left = read(segs, pre, m)
+                            big_next = len(data) - head[-1] >= 1024 and (piece is None or piece >= 1024)
+                            why = None
+                            if kind == 'data':
+                                R.hit('reader-returned')
+                                R.hit('leftover-compared')
+                                if big_next:
+                                    R.hit('plain/big-period-free-read-completes-' +
+                                          ('eod-line' if is_eod else 'period-line'))
+                                if out not in expected(x):
+                                    why = 'content-differs'
+                                elif left != t:
+                                    why = 'leftover-differs'
+                            elif kind == 'too-big':
+                                R.hit('size/leftover-compared-after-too-big')
+                                if m is None or m >= n:
+                                    why = 'refused-although-wire-within-limit'
+                                elif left != t:
+                                    why = 'leftover-differs/after-too-big'
+                            else:
+                                why = kind
+                            if why:
+                                R.violation(('size-limit/' if m is not None else '') + why + '/cut-behind-leading-period',
+                                            '%s: %s message with a %d-byte period-free stretch, read boundary at %s of '
+                                            'the %s, then pieces of %s; trailer %d bytes, max_size=%r'
+                                            % (why, case['shape'], S, [c - p for c in head],
+                                               'end-of-data line' if is_eod else 'period-leading line',
+                                               piece or 'the rest', len(t), m),
+                                            {'shape': case['shape'], 'stretch': S, 'one_long_line': case['longline'],
+                                             'wire_length': n, 'period_offset': p, 'cuts_relative_to_period':
+                                             [c - p for c in head], 'piece_size': piece, 'trailer_length': len(t),
+                                             'max_size': m, 'prebuffered_first_segment': pre, 'result': kind,
+                                             'segment_lengths': [len(sg) for sg in segs][:12],
+                                             'got_head': out[:40] if isinstance(out, bytes) else out,
+                                             'got_length': len(out) if isinstance(out, bytes) else None,
+                                             'expected_length': len(expected(x)[0]), 'leftover_head': (left or b'')[:60]})
+
+
 def run_case(case, R):
     if case.get('kind') == 'full':
         return full_read_stratum(case, R)
+    if case.get('kind') == 'plainrun':
+        return plain_run_stratum(case, R)
     x = case['x']
     rnd = random.Random(case.get('rs', 0))
     if is_nontrivial(x):
